@@ -69,6 +69,7 @@ static void account(const std::vector<Op>& ops, const CaseResult& r) {
   ST.label("sequence_teardown_with_pending", r.seq_teardown_pending);
   ST.label("deathwatched_events", r.dw_events);
   ST.label("reporter_swaps", r.swaps);
+  ST.label("ops_in_catch_handler_or_during_unwinding", r.ctx_ops);
   ST.label("scoped_blocks", r.scoped_blocks);
   ST.label("calls_after_a_dependency_was_destroyed", r.call_after_destroy_dependency);
   ST.label("tolerant_optional_reports", r.tolerant);
